@@ -77,6 +77,7 @@ Msgs(c) ==
              : h \in {S.conn[c].nodeName, ""}, rc \in {2001, 3010}} ELSE {}) \cup
   (IF "dwr" \in Alpha THEN {Mk("DW", 280, TRUE, 1, 1, 0, h, "", 0, FALSE, TRUE, FALSE, <<>>, <<>>, FALSE) : h \in sp} ELSE {}) \cup
   (IF "dwa" \in Alpha THEN {Mk("DW", 280, FALSE, S.conn[c].hbh, S.e2e, 0, h, "", 2001, FALSE, TRUE, FALSE, <<>>, <<>>, FALSE) : h \in sp} ELSE {}) \cup
+  (IF "dwae" \in Alpha THEN {Mk("DW", 280, FALSE, S.conn[c].hbh, S.e2e, 0, h, "", 3004, FALSE, TRUE, FALSE, <<>>, <<>>, FALSE) : h \in sp} ELSE {}) \cup   \* a DWA reporting an error
   (IF "dpr" \in Alpha THEN {Mk("DP", 282, TRUE, 2, 2, 0, h, "", 0, FALSE, TRUE, FALSE, <<>>, <<>>, FALSE) : h \in sp} ELSE {}) \cup
   (IF "dpa" \in Alpha THEN {Mk("DP", 282, FALSE, 2, 2, 0, h, "", 2001, FALSE, TRUE, FALSE, <<>>, <<>>, FALSE) : h \in sp} ELSE {}) \cup
   (IF "req" \in Alpha
